@@ -342,7 +342,7 @@ func (st *State) elabField(env *Env, v SVal, t types.Type, name string) (SVal, t
 		for i := 0; i < su.NumFields(); i++ {
 			if su.Field(i).Embedded() {
 				if es, ok := su.Field(i).Type().Underlying().(*types.Struct); ok {
-					if j, _ := findField(es, name); j >= 0 {
+					if hasFieldDeep(es, name) {
 						return st.elabField(env, st.fieldAddr(addr, i), types.NewPointer(su.Field(i).Type()), name)
 					}
 				}
@@ -352,6 +352,21 @@ func (st *State) elabField(env *Env, v SVal, t types.Type, name string) (SVal, t
 	}
 	fa := st.fieldAddr(addr, idx)
 	return st.load(h, fa), ft
+}
+
+// hasFieldDeep: the struct has the field directly or through embedded struct values.
+func hasFieldDeep(su *types.Struct, name string) bool {
+	if i, _ := findField(su, name); i >= 0 {
+		return true
+	}
+	for i := 0; i < su.NumFields(); i++ {
+		if su.Field(i).Embedded() {
+			if es, ok := su.Field(i).Type().Underlying().(*types.Struct); ok && hasFieldDeep(es, name) {
+				return true
+			}
+		}
+	}
+	return false
 }
 
 func findField(su *types.Struct, name string) (int, types.Type) {
